@@ -70,6 +70,27 @@ def tree_family(depth, catalan, a=0.0, b=1.0, mid=_mid):
     return out
 
 
+def graded_chains(depth, a=0.0, b=1.0, fractions=(0.0, 1.0, 1.0 / 3.0, 0.7), mid=_mid, start=2):
+    """strongly graded trees: the interval containing a target point is split again and again (one tree per chain prefix of
+    `start`..`depth` splits); the targets are given as fractions of [a,b] (0 and 1: refinement towards an end point)"""
+    out, seen = [], set()
+    for fr in fractions:
+        t = a + fr * (b - a)
+        pts, lvs = [a, b], [0, 0]
+        lo_i = 0
+        for level in range(1, depth + 1):
+            lo, hi = pts[lo_i], pts[lo_i + 1]
+            m = mid(lo, hi)
+            pts.insert(lo_i + 1, m)
+            lvs.insert(lo_i + 1, level)
+            if t >= m and not (fr == 0.0):
+                lo_i += 1
+            if level >= start and tuple(pts) not in seen:
+                seen.add(tuple(pts))
+                out.append((list(pts), list(lvs)))
+    return out
+
+
 def is_complete_level(points, a, b):
     """largest m such that all dyadic points of level <= m are present (0 if only the end points)"""
     P = set(points)
